@@ -1,11 +1,23 @@
-"""U-LOC: src/alpha/lexer.rs Location::combined_with (C13: a diagnostic's span covers the offending text and is well formed)."""
+"""U-LOC: src/alpha/lexer.rs Location::combined_with and the span bookkeeping of the alpha parser's token cursor
+(src/alpha/parser.rs: Tokens::{pop_front, start_location_span, location_of_span}) - C13: a diagnostic's span covers the
+offending text, is well formed, and starts on the reported line (the line/column of a combined span are those of its FIRST token)."""
 from vlib import rules
 F = 'src/alpha/lexer.rs'
+P = 'src/alpha/parser.rs'
 
 
 def build(u):
     u.load_contracts('contracts/u_loc.vc')
     u.include('prelude/usize_minmax.rs')
-    u.emit(F, 'struct Location', derive_drop=['Clone', 'PartialEq'])
-    u.notes.append('Location: derived Clone/PartialEq/Debug not needed by combined_with and dropped')
+    u.features.append('allocator_api')
+    u.raw('use std::collections::VecDeque;')
+    u.include('prelude/vecdeque_front.rs')
+    u.raw('// opaque: the cursor only moves tokens around\n#[verifier::external_body] pub struct Token { _p: u8 }\n#[verifier::external_body] pub struct Error { _p: u8 }')
+    u.emit(F, 'struct Location', derive_drop=['PartialEq', 'Clone'])
+    u.raw('// trusted: the derived Clone of Location (String, Range<usize>, usize, usize) is the identity\n'
+          'impl Clone for Location { #[verifier::external_body] fn clone(&self) -> (r: Self) ensures r == *self { Location { source_filename: self.source_filename.clone(), span: self.span.clone(), line_number: self.line_number, line_offset: self.line_offset } } }')
+    u.notes.append('Location: derived PartialEq/Debug dropped (unused); the derived Clone is replaced by a trusted identity clone')
+    u.emit(F, 'struct LexedToken')
     u.emit(F, 'impl Location', only=['combined_with'], rules=[rules.r21_cmp_minmax])
+    u.emit(P, 'struct Tokens', pub_fields=True)
+    u.emit(P, 'impl Tokens', only=['pop_front', 'start_location_span', 'location_of_span'])
